@@ -104,6 +104,12 @@ func (k Keeper) UpdateNSTBalance(
 						return true, err
 					}
 					slashShare := delegationAmount.UndelegatableShare.Mul(slashProportion)
+					if !slashShare.IsPositive() {
+						// nothing is delegated under this record any more (it stays behind with a share of
+						// zero while an undelegation is pending): there is nothing to take, and RemoveShare
+						// rejects a share that is not positive, which would fail the whole update
+						return false, nil
+					}
 					actualSlashAmount, err := k.RemoveShare(ctx, false, opAccAddr, stakerID, assetID, slashShare)
 					if err != nil {
 						return true, err
